@@ -68,6 +68,7 @@ pub fn exec(line: &str, _model: &mut Model) -> Option<Exec> {
                     e = Exec::new(format!("ok {} ops={}", show_bundle(&b), match p { None => "ok".to_string(), Some(n) => format!("panic:{}", n.replace(' ', "_")) }));
                     if let Some(n) = p { e.oracle_fail = Some(format!("`{}` panics on a bundle the decoder accepted", n)); }
                     else if let (true, Some(w)) = (bytes.len() <= 4096, decode_ways(bytes.as_slice()).1) { e.oracle_fail = Some(w); }
+                    else if let (true, Some(w)) = (bytes.len() <= 4096, crate::p_misc::history_vs_fresh(&b, bytes.iter().map(|x| *x as u64).sum::<u64>() + bytes.len() as u64)) { e.oracle_fail = Some(w); }
                     else if peak_ops > bound { e.oracle_fail = Some(format!("the receive-path operations on a bundle decoded from {} input bytes held {} bytes allocated at one time (bound {})", bytes.len(), peak_ops, bound)); }
                 }
             }
@@ -347,7 +348,14 @@ fn inject(class: &str, base: &[u8], rng: &mut Rng) -> Option<Vec<u8>> {
             match class {
                 "eid-extra" => { v.splice(e.1..e.1, [0x00]); set_count(&mut v, e.0, 3); }
                 "eid-no-scheme" => { v.splice(e.0..e.1, [0x80]); }
-                "scheme-unknown" => { let s = *rng.pick(&[0u8, 3, 4, 23]); v[ec[0].0] = s; if ec[0].1 - ec[0].0 != 1 { return None; } }
+                "scheme-unknown" => {
+                    if ec[0].1 - ec[0].0 != 1 { return None; }
+                    // one-byte codes, and wider ones -- among them codes whose low byte (or low 16 / 32 bits) is 1 or 2
+                    let code: u64 = match rng.below(4) { 0 => *rng.pick(&[0u64, 3, 4, 23]), 1 => *rng.pick(&[24u64, 255, 256, 65_535, 65_536, u32::MAX as u64, u64::MAX]),
+                        _ => (scheme & 0xff) + *rng.pick(&[0x100u64, 0x200, 0xff00, 0x1_0000, 0x1_0000_0000, 1 << 63]) };
+                    let h = cbor_head(0, code);
+                    v.splice(ec[0].0..ec[0].1, h);
+                }
                 "ipn-arity" => { if scheme != 2 { return None; } let ic = cborx::array_children(base, ec[1].0)?; if rng.chance(1, 2) { v.drain(ic[1].0..ic[1].1); set_count(&mut v, ec[1].0, 1); } else { v.splice(ec[1].1..ec[1].1, [0x01]); set_count(&mut v, ec[1].0, 3); } }
                 _ => { if scheme != 2 { return None; } let ic = cborx::array_children(base, ec[1].0)?; v.splice(ic[0].0..ic[0].1, [0x00]); }
             }
@@ -385,6 +393,18 @@ fn inject(class: &str, base: &[u8], rng: &mut Rng) -> Option<Vec<u8>> {
             let mut f = cbor_head(2, b.len() as u64); f.extend_from_slice(b);
             v.splice(ch[4].0..ch[4].1, f);
         }
+        "btsd-retype" => { // the data of one known extension block type under another known type (6 <-> 7 <-> 10)
+            if primary { return None; }
+            let bt = cborx::read_uint(base, ch[0])?;
+            if ![6u64, 7, 10].contains(&bt) || ch[0].1 - ch[0].0 != 1 { return None; }
+            let nt = *rng.pick(&[6u8, 7, 10].iter().filter(|x| **x as u64 != bt).cloned().collect::<Vec<_>>());
+            // the one value that is well-formed under two types: [1, 0] is dtn:none as well as hop count (1, 0)
+            // (the decoder reads [1, n] with an integer n as the null endpoint written with value n)
+            let data = &base[ch[4].0..ch[4].1];
+            let inner = &data[data.len().min(1)..];
+            if inner.len() >= 3 && inner[0] == 0x82 && inner[1] == 0x01 && inner[2] >> 5 == 0 && (nt == 6 || nt == 10) { return None; }
+            v[ch[0].0] = nt;
+        }
         "no-break" => { v.pop(); }
         "trailing-byte" => { v.push(*rng.pick(&[0x00u8, 0xff, 0x80, 0xf6])); }
         _ => return None,
@@ -392,7 +412,7 @@ fn inject(class: &str, base: &[u8], rng: &mut Rng) -> Option<Vec<u8>> {
     Some(v)
 }
 
-pub const FAULT_CLASSES: [&str; 17] = ["missing-item", "extra-item", "ts-arity", "ipn-arity", "eid-extra", "eid-no-scheme", "scheme-unknown", "ipn-node0",
+pub const FAULT_CLASSES: [&str; 18] = ["btsd-retype", "missing-item", "extra-item", "ts-arity", "ipn-arity", "eid-extra", "eid-no-scheme", "scheme-unknown", "ipn-node0",
     "crc-length", "crc-presence", "uint-kind", "array-kind", "bstr-kind", "btsd", "no-break", "trailing-byte", "missing-item"];
 
 fn gen_c19(rng: &mut Rng, ctx: &mut Ctx, rep: &mut Report, emit: Emit) {
@@ -403,6 +423,7 @@ fn gen_c19(rng: &mut Rng, ctx: &mut Ctx, rep: &mut Report, emit: Emit) {
         let parts: Vec<&str> = ans.split(' ').collect();
         if parts.len() < 2 || parts[0] != "ok" { continue; }
         let base = match unhex(parts[1]) { Some(x) => x, None => continue };
+        emit(ctx, rep, format!("dec {}", hex(&base)));
         for class in FAULT_CLASSES.iter() {
             for _ in 0..6 {
                 if let Some(f) = inject(class, &base, rng) {
